@@ -3,9 +3,9 @@ SPECIFICATION Spec
 CONSTANTS
   ReqTypes <- TypesSamples
   NItems = 2
-  MaxAnswers = 2
+  MaxAnswers = 1
   Chains <- ChainsShrexOnly
-  NPeers = 3
+  NPeers = 2
   BlockStores <- StoresLight
   ClearOnFail = FALSE
   FreshDecode = FALSE
